@@ -21,7 +21,7 @@ import unicodedata
 from abc import abstractmethod
 from functools import reduce
 from itertools import chain, groupby
-from numbers import Rational
+from numbers import Integral, Rational
 from operator import mul
 from typing import (
     Any, Callable, Generator, Iterable, Iterator, List, Optional, Sequence,
@@ -131,7 +131,10 @@ class Term(ItemSequenceT[T]):
                       n_items: Optional[int] = None,
                       keep_item_order: bool = True) -> ItemTupleT[T]:
         if n_items == 1:  # already reduced
-            return tuple(_filter_items(items))
+            (elem, exp), = items
+            if isinstance(elem, Rational):
+                return _num_items(_pow_num(elem, exp))
+            return tuple(_filter_items(((elem, exp),)))
         if n_items == 2:
             elem1: ElemT[T]
             elem2: ElemT[T]
@@ -139,7 +142,8 @@ class Term(ItemSequenceT[T]):
             # most relevant case: numeric + non-numeric element
             if isinstance(elem1, Rational) and \
                     not isinstance(elem2, Rational):
-                return tuple(_filter_items(((elem1, exp1), (elem2, exp2))))
+                return tuple(_filter_items(((_pow_num(elem1, exp1), 1),
+                                            (elem2, exp2))))
             # second most relevant case: 2 non-numeric elements
             if not isinstance(elem1, Rational) and \
                     not isinstance(elem2, Rational):
@@ -171,12 +175,12 @@ class Term(ItemSequenceT[T]):
             # third most relevant case: non-numeric + numeric element
             if isinstance(elem2, Rational) and \
                     not isinstance(elem1, Rational):
-                return tuple(_filter_items(((elem2, exp2), (elem1, exp1))))
+                return tuple(_filter_items(((_pow_num(elem2, exp2), 1),
+                                            (elem1, exp1))))
             # least relevant case: 2 numeric elements
             if isinstance(elem1, Rational) and isinstance(elem2, Rational):
-                num: Rational = elem1 ** exp1 * elem2 ** exp2
-                if num != 1:
-                    return (num, 1),
+                return _num_items(_pow_num(elem1, exp1) *
+                                  _pow_num(elem2, exp2))
         # more than 2 items or number of items unknown:
         norm_sort_key = self.norm_sort_key
         sort_key: Callable[[Tuple[int, Any]], int] = lambda x: x[0]
@@ -227,7 +231,7 @@ class Term(ItemSequenceT[T]):
             else:  # numerical elements
                 group_it = cast(Iterator[Tuple[int, Tuple[Rational, int]]],
                                 group_it)
-                num_elem = reduce(mul, (elem ** exp
+                num_elem = reduce(mul, (_pow_num(elem, exp)
                                         for _, (elem, exp) in group_it),
                                   num_elem)
         if num_elem != 1:
@@ -270,7 +274,7 @@ class Term(ItemSequenceT[T]):
             pass
         else:
             if isinstance(elem, Rational):
-                return cast(Rational, elem ** exp)
+                return _pow_num(elem, exp)
         return None
 
     def split(self, dflt_num: Rational = ONE) \
@@ -408,6 +412,21 @@ class Term(ItemSequenceT[T]):
 
 
 # helper functions
+
+def _pow_num(num: Rational, exp: int) -> Rational:
+    """Return `num` ** `exp` as exact rational number."""
+    if exp < 0 and isinstance(num, Integral):
+        # avoid int ** -n -> float
+        return cast(Rational, ONE / num ** -exp)
+    return cast(Rational, num ** exp)
+
+
+def _num_items(num: Rational) -> ItemTupleT[Any]:
+    """Return canonical item tuple for numerical factor `num`."""
+    if num == 1:
+        return ()
+    return (num, 1),
+
 
 def _filter_items(items: ItemIterableT[T]) \
         -> Generator[ItemT[T], None, None]:
